@@ -235,7 +235,7 @@ def strictly_sorted(ids):
 # -------------------------------------------------------------- PL programs
 def run_pl_case(c):
     """c = {ctor, ops} ; fills observations into c and runs the oracle"""
-    rep = {"kind": "pl", "ctor": c["ctor"], "ops": c["ops"]}
+    rep = {"kind": "pl", "ctor": c["ctor"], "ops": c["ops"] or []}
     try:
         pl, phobs = build_pl(c["ctor"])
         c["init"] = {"ok": obs_pl(pl)}
@@ -261,6 +261,7 @@ def run_pl_case(c):
     steps = []
     gen = c["ops"] is None
     ops = [] if gen else c["ops"]
+    rep["ops"] = ops            # same list object: complete by the time it is emitted
     nops = R.choice([1, 2, 3, 4, 5, 6]) if gen else len(ops)
     for j in range(nops):
         if gen:
@@ -455,6 +456,7 @@ def check_invariant(views, after, rep, tag=""):
     ok_entries = True
     if not strictly_sorted(ids):
         fail(f"inv:sorted:after={after}", f"phase ids not sorted/unique: {ids}", rep)
+        return False
     present = sorted(set(int(i) for i in x._phase_id))
     if not set(present) <= set(ids):
         ok_entries = False
@@ -493,8 +495,8 @@ def check_invariant(views, after, rep, tag=""):
 
 
 def run_map_case(c):
-    rep = {"kind": "map", "pid": c["pid"], "pl": c["pl"], "inview": c["inview"], "props": c["props"],
-           "ops": c["ops"]}
+    rep = {"kind": "map", "pid": c["pid"], "pl": c["pl"], "plprep": c.get("plprep", []), "inview": c["inview"],
+           "props": c["props"], "ops": c["ops"] or []}
     pid = np.array(c["pid"], dtype=int)
     n = pid.size
     caller = caller_before = None
@@ -546,6 +548,7 @@ def run_map_case(c):
     # ---- ops
     gen = c["ops"] is None
     ops = [] if gen else c["ops"]
+    rep["ops"] = ops            # same list object: complete by the time it is emitted
     nops = R.choice([2, 3, 4, 5, 6, 8]) if gen else len(ops)
     steps = []
     for j in range(nops):
